@@ -30,6 +30,8 @@ func boolFieldHook(vals map[string]absint.Val) func(st *absint.State, base absin
 }
 
 func runC17(c *core.Ctx) {
+	c.Rule("TIMEEQ", "time.Time values are compared with Equal/Before/After, never with ==")
+	checkTimeEquality(c, "TIMEEQ", "execution", "execution/nodes", "octosql", "aggregates", "table_valued_functions", "outputs", "functions", "datasources")
 	_ = c.Prog
 	c.Rule("ABS7", "CountingTrigger fires exactly on every n-th record of a key and resets")
 	c.Rule("ABS8", "WatermarkTrigger/EndOfStreamTrigger/CountingTrigger Poll fire exactly the due keys")
